@@ -230,3 +230,26 @@ fn pstr_create_inline_opt_wraps() {
     _ => assert!(false),
   }
 }
+
+// ---- helper for Kani units in other crates: a Heap with empty tables, built as a struct literal.
+// `Heap::new()` inserts into std HashMaps (SipHash), which CBMC cannot execute; harnesses that only
+// *carry* a &Heap (inline handles never touch the tables) use this together with a stub for
+// `RandomState::new`.
+impl Heap {
+  pub fn kani_empty() -> Heap {
+    Heap {
+      str_pointer_table: Vec::new(),
+      module_reference_pointer_table: Vec::new(),
+      interned_string: HashMap::new(),
+      interned_static_str: HashMap::new(),
+      interned_module_reference: HashMap::new(),
+      unmarked_module_references: HashSet::new(),
+      sweep_index: 0,
+    }
+  }
+}
+
+/// stub for std::hash::RandomState::new (reads OS randomness through foreign calls)
+pub fn kani_random_state_stub() -> std::hash::RandomState {
+  unsafe { std::mem::transmute::<(u64, u64), std::hash::RandomState>((0u64, 0u64)) }
+}
